@@ -108,7 +108,8 @@ def compare(model, J, twopl, eq):
     R = J.max_rank()
     out.append(('rank_lists', [sorted(key(pr) for pr in l) for l in model.rank_lists] ==
                 [sorted((s, p) for (s, p, r) in J.pairs() if r == k) for k in range(1, R + 1)]))
-    txt = model._pairs_string(model.pairs)
+    # the text of the 'Model instance information' block: one str(pair) + ' ' per pair, one line per student
+    txt = ''.join(''.join(str(pr) + ' ' for pr in row) + '\n' for row in model.pairs)
     want_txt = ''
     for row in want_rows:
         for (s, p, r) in row:
